@@ -321,3 +321,31 @@ def op_configs(op):
         step = len(out) / op.nmax
         out = [out[int(i * step)] for i in range(op.nmax)]
     return out
+
+
+def _distinct(vs):
+    import itertools as _it
+
+    from mc import exact as _X
+
+    return all(_X.irank([[int(2 * x) for x in a], [int(2 * x) for x in b]]) == 2 for a, b in _it.combinations(vs, 2))
+
+
+def valid_spec(op, spec):
+    """Input combinations the compared properties do not define (used when C04 mixes specifications of different
+    configurations): two points at infinity for dist, coincident points for angle / harmonic_set / crossratio."""
+    n = op.name
+    pts = [s for k, s in zip(op.kinds, spec) if k in ("P2", "P3")]
+    if n.startswith("dist(") and sum(1 for p in pts if p[-1] == 0) and len(pts) == 2 and all(p[-1] == 0 for p in pts):
+        return False
+    if n.startswith("dist(") and any(p[-1] == 0 for p in pts) and len(pts) < len(spec):
+        return False  # distance of a point at infinity to a line / plane / polytope is not defined by the statement
+    if n.startswith(("angle(P", "harmonic_set", "crossratio(P", "is_cocircular")):
+        if not _distinct(pts):
+            return False
+    if n.startswith(("harmonic_set", "crossratio(P")):
+        from mc import exact as _X
+
+        if _X.irank([[int(x) for x in p] for p in pts[:4]]) != 2:
+            return False
+    return True
